@@ -10,8 +10,9 @@ from leanfmt import cps, lean_list, lean_str
 
 ID = "C09"
 LEAN_MODULES = ["EzdxfVerif.Props.C09"]
-DRIVER_DEPS = ["EzdxfVerif.Model.Encoding", "EzdxfVerif.Gen.EncodingTables", "Drivers.Proto"]
-SRCS = ["src/ezdxf/lldxf/encoding.py", "src/ezdxf/tools/codepage.py"]
+DRIVER_DEPS = ["EzdxfVerif.Model.Encoding", "EzdxfVerif.Model.EncodingExt", "EzdxfVerif.Gen.EncodingTables",
+               "EzdxfVerif.Gen.CjkTables", "Drivers.Proto"]
+SRCS = ["src/ezdxf/lldxf/encoding.py", "src/ezdxf/tools/codepage.py", "src/ezdxf/lldxf/const.py"]
 UNDEF = 0xFFFFFF
 
 
@@ -139,6 +140,74 @@ def probe_grouped(enc: str) -> bool:
     raise ValueError(f"codec {enc}: unexpected error run structure {seen}")
 
 
+PACK_K = 32  # 32-bit entries per packed number of Gen/CjkTables
+
+
+def tabulate_dbcs_full(enc: str, bmp_table: dict, lossy: list):
+    """the complete decoder (every 1- and 2-byte sequence that decodes to ONE character) and the complete encoder (every
+    code point) of a double-byte codec, as entries key*65536+cp, key = byte or lead*256+trail"""
+    dec = []
+    single_bytes = set()
+    for b in range(256):
+        try:
+            ch = bytes([b]).decode(enc)
+        except UnicodeDecodeError:
+            continue
+        if len(ch) != 1 or ord(ch) > 0xFFFF:
+            raise ValueError(f"{enc}: byte {b:#x} decodes to {ch!r}: outside the model")
+        single_bytes.add(b)
+        dec.append(b * 65536 + ord(ch))
+    leads = set()
+    for lead in range(256):
+        if lead in single_bytes:
+            continue
+        for trail in range(256):
+            try:
+                ch = bytes([lead, trail]).decode(enc)
+            except UnicodeDecodeError:
+                continue
+            if len(ch) != 1 or ord(ch) > 0xFFFF:
+                raise ValueError(f"{enc}: bytes {lead:#x} {trail:#x} decode to {ch!r}: outside the model")
+            leads.add(lead)
+            dec.append((lead * 256 + trail) * 65536 + ord(ch))
+    # the encoder: the BMP was tabulated per character; above it nothing may be encodable (one C-level call per plane)
+    for plane in range(1, 17):
+        chunk = "".join(map(chr, range(plane * 0x10000, (plane + 1) * 0x10000)))
+        if chunk.encode(enc, "ignore"):
+            raise ValueError(f"{enc}: encodes characters above U+FFFF: outside the model")
+    encm = []
+    for x, bs in bmp_table.items():
+        if x > 0xFFFF:
+            raise ValueError(f"{enc}: encodes U+{x:X}: outside the model")
+        encm.append((bs[0] if len(bs) == 1 else bs[0] * 256 + bs[1]) * 65536 + x)
+    encm.sort()
+    decset = set(dec)
+    good = [e for e in encm if e in decset]
+    bad = [e for e in encm if e not in decset]
+    if sorted(e % 65536 for e in bad) != sorted(lossy):
+        raise ValueError(f"{enc}: lossy characters {lossy} != encoder entries without decoder entry {bad}")
+    lead_ranges = []
+    for b in sorted(leads):
+        if lead_ranges and lead_ranges[-1][1] == b - 1:
+            lead_ranges[-1][1] = b
+        else:
+            lead_ranges.append([b, b])
+    return dict(dec=dec, good=good, bad=bad, leads=[tuple(r) for r in lead_ranges])
+
+
+def lean_packed(entries) -> str:
+    """`unpackL K [rest] [packed numbers]`"""
+    full = len(entries) // PACK_K * PACK_K
+    nums = []
+    for i in range(0, full, PACK_K):
+        n = 0
+        for j, e in enumerate(entries[i : i + PACK_K]):
+            assert 0 <= e < 2 ** 32
+            n |= e << (32 * j)
+        nums.append(hex(n))
+    return f"unpackL {PACK_K} {nats(entries[full:])}\n    [" + ",\n     ".join(nums) + "]"
+
+
 _GEN_CACHE = {}
 
 
@@ -157,6 +226,7 @@ def gen_data():
     d["tables"] = {}
     d["sbcs"] = {}
     d["dbcs"] = {}
+    d["dbcs_full"] = {}
     d["grouped"] = {}
     for enc in d["codecs"] + ["utf8", "ascii"]:
         d["grouped"][enc] = probe_grouped(enc)
@@ -165,6 +235,9 @@ def gen_data():
         d["tables"][enc] = t
         maxlen = max(len(b) for b in t.values())
         if maxlen == 1:
+            for plane in range(1, 17):  # tabulate_codec samples the astral planes: nothing there may be encodable
+                if "".join(map(chr, range(plane * 0x10000, (plane + 1) * 0x10000))).encode(enc, "ignore"):
+                    raise ValueError(f"{enc}: encodes characters above U+FFFF: outside the model")
             dec = []
             for b in range(256):
                 try:
@@ -200,8 +273,21 @@ def gen_data():
                 raise ValueError(f"{enc}: a lead byte is also a single byte encoding (not a prefix code)")
             d["dbcs"][enc] = dict(singles=singles, leads=sorted(leads), trails=sorted(trails), lossy=lossy,
                                   count=len(t))
+            d["dbcs_full"][enc] = tabulate_dbcs_full(enc, t, lossy)
         else:
             raise ValueError(f"{enc}: encodings of up to {maxlen} bytes are outside the model")
+    from ezdxf.lldxf import const
+
+    d["versions"] = [(v, v >= const.DXF2007) for v in const.acad_release]
+    d["mif_pages"] = []
+    for k, v in E.MIF_CODE_PAGE.items():
+        if len(k) != 1:
+            raise ValueError(f"MIF_CODE_PAGE key {k!r}: `_decode_mif` looks at one character (s[3]): outside the model")
+        try:
+            nm = codecs.lookup(v).name
+        except LookupError:
+            nm = ""
+        d["mif_pages"].append((ord(k), nm))
     d["re_unicode"] = E.BACKSLASH_UNICODE.pattern
     d["re_mif"] = E.MIF_ENCODED.pattern
     return d
@@ -218,9 +304,20 @@ def lean_dict(items) -> str:
     return "[" + ",\n   ".join(f"({lstr(k)}, {lstr(v)})" for k, v in items) + "]"
 
 
+LINE_END_SITES = [
+    ("src/ezdxf/document.py", 'binary_data.replace(b"\\n", b"\\r\\n")', "Drawing.encode_base64: LF -> CRLF on the encoded bytes (model lfToCrlf)"),
+    ("src/ezdxf/filemanagement.py", 'binary_data.replace(b"\\r\\n", b"\\n")', "decode_base64: CRLF -> LF before decoding (model crlfToLf)"),
+    ("src/ezdxf/tools/zipmanager.py", "self.dxf_file.readline().replace(CRLF, LF)", "ZipReader.readline: CRLF -> LF before decoding (model crlfToLf)"),
+]
+
+
 def regenerate(ctx):
     for s in SRCS:
         ctx.src(s)
+    for path, expr, what in LINE_END_SITES:
+        if expr not in ctx.src(path):
+            raise ValueError(f"{path}: expression `{expr}` not found ({what}): the hand model of the byte level line end "
+                             "conversion no longer describes the source")
     _GEN_CACHE.clear()
     d = gen_data()
     out = ["import EzdxfVerif.Model.Encoding", "", "namespace EzdxfVerif.Gen.EncodingTables", "open EzdxfVerif.Encoding", ""]
@@ -241,6 +338,12 @@ def regenerate(ctx):
         out.append(f"def {enc}Table : List Nat :=\n  {nats(dec)}")
     out.append("def sbcsTables : List (Str × List Nat) :=\n  [" + ", ".join(
         f"({lstr(e)}, {e}Table)" for e in d["sbcs"]) + "]")
+    out.append("/-- the encoders of the single-byte code pages, tabulated independently of the decoding tables: every\n"
+               "    (code point, byte) with `chr(x).encode(codec) == bytes([byte])` over all of Unicode, by increasing byte -/")
+    for enc in d["sbcs"]:
+        out.append(f"def {enc}Enc : List (Nat × Nat) :=\n  " + lean_list(f"({x}, {b[0]})" for x, b in sorted(d["tables"][enc].items(), key=lambda it: it[1])))
+    out.append("def sbcsEncoders : List (List Nat × List (Nat × Nat)) :=\n  [" + ", ".join(
+        f"({e}Table, {e}Enc)" for e in d["sbcs"]) + "]")
     out.append("")
     out.append("/-- double-byte code pages: all 1-byte encodings (code point, byte), the sets of lead and trail bytes of\n"
                "    all 2-byte encodings over the BMP, the characters whose encoding does not decode back to them -/")
@@ -250,11 +353,28 @@ def regenerate(ctx):
                    f"  trails := {nats(v['trails'])}\n  lossy := {nats(v['lossy'])}\n  count := {v['count']}")
     out.append("def dbcsInfos : List Dbcs := [" + ", ".join(f"{e}Info" for e in d["dbcs"]) + "]")
     out.append("")
+    out.append("/-- `MIF_CODE_PAGE` resolved through `codecs.lookup`: (page digit, canonical codec name; empty = LookupError) -/")
+    out.append("def mifCodePage : List (Nat × Str) :=\n  [" + ", ".join(f"({k}, {lstr(v)})" for k, v in d["mif_pages"]) + "]")
+    out.append("/-- the DXF versions ezdxf knows (`const.acad_release`) and Python's own `version >= const.DXF2007` -/")
+    out.append("def acadVersions : List (Str × Bool) :=\n  [" + ", ".join(
+        f"({lstr(v)}, {'true' if u else 'false'})" for v, u in d["versions"]) + "]")
     out.append(f"def backslashUnicodePattern : String := {lean_str(d['re_unicode'])}")
     out.append(f"def mifEncodedPattern : String := {lean_str(d['re_mif'])}")
     out.append("")
     out.append("end EzdxfVerif.Gen.EncodingTables")
     ctx.write_gen("EncodingTables", "\n".join(out) + "\n", SRCS)
+    # complete tables of the double-byte codecs: depend on CPython and on the codec list of codepage.py only, so an edit of
+    # encoding.py does not re-open the (expensive) table certificates
+    out = ["import EzdxfVerif.Model.Encoding", "", "namespace EzdxfVerif.Gen.CjkTables", "open EzdxfVerif.Encoding", ""]
+    out.append("/-- complete decoder/encoder tables of CPython's double-byte codecs (entries key*65536+cp, packed) -/")
+    for enc, v in d["dbcs_full"].items():
+        out.append(f"def {enc}Tab : DbcsTab where\n  name := {lstr(enc)}\n  dec := {lean_packed(v['dec'])}\n"
+                   f"  encGood := {lean_packed(v['good'])}\n  encLossy := {nats(v['bad'])}\n"
+                   f"  leads := " + lean_list(f"({a}, {b})" for a, b in v["leads"]))
+    out.append("def dbcsTabs : List DbcsTab := [" + ", ".join(f"{e}Tab" for e in d["dbcs_full"]) + "]")
+    out.append("")
+    out.append("end EzdxfVerif.Gen.CjkTables")
+    ctx.write_gen("CjkTables", "\n".join(out) + "\n", ["src/ezdxf/tools/codepage.py"])
     ctx.note(f"handler ranges: {[(hex(lo), hex(hi), k) for lo, hi, k in d['fmt']]}")
 
 
@@ -262,41 +382,66 @@ def regenerate(ctx):
 RULE = (
     "correspondence (Lean model vs. real code, line by line): X1 dxf_backslash_replace on single code points "
     "(stratified over all planes; thorough: whole BMP) and on runs mixing encodable-nowhere characters, U+DC80..DCFF and other "
-    "surrogates; X2 str.encode(codec, 'dxfreplace') for ascii, utf8, the 10 single-byte code pages (model tables) and the 4 "
-    "CJK code pages (per-character encodings supplied by the codec, escape logic by the model) on single code points, all "
-    "category triples and seeded random mixed strings; X3 bytes.decode(codec, 'surrogateescape') for utf8 (structured "
-    "malformed sequences) and the single-byte pages (all 256 bytes); X4 decode_dxf_unicode / has_dxf_unicode / re.split / "
-    "has_mif_encoding / recover.byte_tag_compiler string branch on exhaustive short and random strings "
-    "over an escape alphabet; X5 toencoding / tocodepage on table keys with prefixes/suffixes and random names; X6 the whole "
-    "pipeline encode -> decode -> decode_dxf_unicode. non-trivial = reaches the handler / a match / a non-default table "
+    "surrogates; X2 str.encode(codec, 'dxfreplace') for ascii, utf8, the 10 single-byte code pages and the 4 double-byte code "
+    "pages (all through the model's regenerated tables; every 7th double-byte case also with per-character encodings supplied "
+    "by the codec) on single code points, all category triples and seeded random mixed strings; X3 "
+    "bytes.decode(codec, 'surrogateescape') for utf8 (structured malformed sequences), the single-byte pages (all 256 bytes) "
+    "and the double-byte pages (every 2-byte sequence in context, truncated/invalid sequences); X4 decode_dxf_unicode / "
+    "has_dxf_unicode / re.split / has_mif_encoding / recover.byte_tag_compiler string branch on exhaustive short and random "
+    "strings over an escape alphabet; X5 toencoding / tocodepage on table keys with prefixes/suffixes and random names; X6 the "
+    "whole pipeline encode -> decode -> decode_dxf_unicode (all 16 codecs); X7 encoding detection of dxf_stream_info, "
+    "recover.detect_encoding and the Binary DXF scan_params for every DXF version x $DWGCODEPAGE spelling (prefixes, case, "
+    "white space, near misses, random); X8 decode_mif_to_unicode / re.split(MIF_ENCODED) / the complete recover string branch "
+    "on MIF escapes of defined and undefined byte pairs of every page, quirk shapes and random atoms; X9 io.TextIOWrapper("
+    "errors='dxfreplace') with one write per piece, and the byte level LF<->CRLF conversions. non-trivial = reaches the handler / a match / a non-default table "
     "branch; distinct by hash of the request line. oracle: real Drawing.saveas -> ezdxf.readfile / recover.readfile round "
-    "trips of TEXT, MTEXT, layer names, XDATA strings and header variables for R12/R2000/R2004 x 14 code pages and R2007+ "
-    "x {ASCII, binary}."
+    "trips of TEXT, MTEXT, layer / block / text style names, INSERT references, ATTRIB tag and text, XDATA strings and header "
+    "variables for R12/R2000/R2004 x 14 code pages and R2007+ "
+    "x {ASCII, binary}, including double-byte characters whose trail byte is `\\ ^ % { |` followed by the text that would "
+    "complete an escape at the byte level, values with white space at the ends and of up to 1300 characters; every ASCII file also "
+    "through iterdxf.modelspace / single_pass_modelspace / opendxf, ezdxf.readzip and encode_base64 -> decode_base64; the same "
+    "files with $DWGCODEPAGE re-spelled (O4)."
 )
 TRUSTED_BASE = [
-    "CPython codecs: the 4 CJK code pages enter the theorems only through the recorded laws of `Lawful` (validated "
-    "exhaustively over the BMP by regenerate: per-character round trip, prefix-code structure, byte sets) - not proved",
-    "the single-byte tables and UTF-8 are modelled and proved lawful; that CPython's codecs equal these models is "
-    "tabulated/corresponded, not proved",
+    "CPython codecs: every codec enters the theorems through tables regenerated on every run - the 10 single-byte decoding "
+    "tables + independently tabulated encoders (proved inverse of each other in Lean), and for cp932/gbk/cp949/cp950 the "
+    "COMPLETE decoder (every 1- and 2-byte sequence) and encoder (every code point 0..0x10FFFF), from which the codec laws are "
+    "proved by kernel-checked certificates; trusted: that the codecs behave on longer inputs like the table driven model "
+    "decoder/encoder (sequential, stateless; corresponded on every 2-byte sequence in context + structured random bytes)",
+    "UTF-8 is modelled (encoder + surrogateescape decoder) and proved lawful; that CPython's codec equals the model is corresponded",
     "CPython `re` for the two small patterns (hand model, pattern text pinned by theorem regex_patterns_as_modelled)",
     "int(s,16)/chr are only applied to four upper case hex digits (after fix 3fc8e70de): modelled as their positional value",
-    "TextIOWrapper(errors='dxfreplace') behaves like str.encode per written string (exercised by the oracle only)",
+    "binascii.unhexlify / codecs.lookup as modelled for MIF (hexVal?/unhex, page table tabulated through codecs.lookup; corresponded)",
+    "io.TextIOWrapper(errors='dxfreplace') encodes every write() on its own like str.encode (corresponded, stream X9; the "
+    "writers issue one write per tag)",
+    "bytes.replace for the LF<->CRLF conversions of encode_base64 / decode_base64 / ZipReader (hand model lfToCrlf / crlfToLf; source "
+    "expressions pinned by regenerate, corresponded with bytes.replace)",
+    "the tag loaders (line / NUL splitting, group codes) are C03/C08's models; C09 proves that splitting commutes with decoding "
+    "(strict_reader_lines, byte_split_readers) and exercises the real loaders in the oracle",
+    "the driver evaluates the double-byte codecs through hash maps built first-entry-wins from the table lists (the model's "
+    "`find?` look-ups are the same function; spot-checked by the slowenc/slowdec/slowunmif requests)",
 ]
 ASSUMPTIONS = [
-    "strings of the oracle are single-line, BMP, no C0/C1 controls, no surrogates, no literal \\U+ or \\M+, no leading/trailing "
-    "white space, not ending in '^' (ezdxf's one-line-text fixer strips a trailing caret from TEXT on load: not an encoding matter)",
+    "strings of the oracle are single-line, BMP, no C0/C1 controls, no surrogates, no literal \\U+ or \\M+, not ending in '^' "
+    "(ezdxf's one-line-text fixer strips a trailing caret from TEXT on load: not an encoding matter); leading/trailing white "
+    "space (blank, NBSP, U+3000, en/em spaces, ZWSP, BOM) IS included since session 3",
     "recover.readfile does not read Binary DXF (not a supported combination in ezdxf)",
+    "$DWGCODEPAGE spellings: any prefix + a table key (proved, toencoding_any_prefix); the Binary DXF scanner additionally needs "
+    "five or more characters, and six or more if the name does not start with 'A' in an R12 file (binScan_spec) - shorter names "
+    "such as a bare '874' fall back to cp1252 there (modelled + corresponded, not a supported spelling)",
 ]
 OPEN = [
-    "codec laws for cp932, gbk, cp949, cp950 are hypotheses of escape_roundtrip (validated exhaustively, not proved in Lean)",
-    "cp932 (6) and cp950 (9) characters are encoded lossy by CPython's codecs (best fit): excluded by the `good` predicate, "
-    "reported as known finding lossy-codec/*",
-    "file framing (tag lines, NUL termination) is covered by byte-freeness theorems + oracle, the loaders themselves belong to C03/C07",
-    "raw-byte survival (bytes -> str -> bytes) is proved for UTF-8 (utf8_bytes_roundtrip) and in general form "
-    "(encode_surrogate_passthrough); for the single-byte tables it would need table injectivity, which is checked by "
-    "regenerate in Python but not proved in Lean",
-    "code points above U+FFFF under a legacy code page are written as \\U+%08x, which decode_dxf_unicode mis-decodes "
-    "(first 4 digits): outside the property's BMP quantifier, modelled and corresponded but no theorem",
+    "cp932 (6) and cp950 (9) characters are encoded lossy by CPython's codecs (best fit): excluded by the hypothesis "
+    "`x ∉ lossyCps T` (theorem lossy_characters_listed pins the lists), reported as known finding lossy-codec/*",
+    "raw-byte survival (bytes -> str -> bytes) is proved for UTF-8 and the 10 single-byte pages (sbcs_bytes_roundtrip); for "
+    "the double-byte pages it is false for cp932/cp950 (several byte sequences decode to one character) and not attempted",
+    "code points above U+FFFF under a legacy code page are written \\U+%08x and never read back (astral_legacy_* theorems state "
+    "exactly what comes back); outside the property's BMP quantifier, no fix made: decoding surrogate pairs would change what "
+    "the proved round trip of lone surrogates returns",
+    "MIF: `_decode_mif` converts parts that merely start with \\M+ (modelled as is, unreachable without a full match in the "
+    "recover loader); page 4 is spelled cp1391 in the source (no such codec; Johab is cp1361), so \\M+4XXXX is never decoded "
+    "(mif_pages_as_tabulated): both outside the property (strings with \\M+ are excluded), not listed as findings",
+    "the tag loaders themselves are not modelled here (C03/C08); Windows line ends (CRLF) are not in the framing theorems",
 ]
 
 
@@ -380,6 +525,77 @@ def impl_recover(s: str) -> str:
     if len(tags) != 1 or tags[0].code != 1:
         return f"other {tags!r}"
     return "ok " + cps(tags[0].value)
+
+
+def impl_unmif(s: str) -> str:
+    from ezdxf.lldxf.encoding import decode_mif_to_unicode
+
+    try:
+        return cps(decode_mif_to_unicode(s))
+    except Exception as e:  # noqa
+        return "err " + exc_name(e)
+
+
+def impl_mifsplit(s: str) -> str:
+    from ezdxf.lldxf.encoding import MIF_ENCODED
+
+    return ";".join(cps(p) for p in re.split(MIF_ENCODED, s))
+
+
+def impl_recovertext(s: str) -> str:
+    """the string branch of recover.byte_tag_compiler on a value that decodes to `s` (MIF branch included)"""
+    from ezdxf.lldxf.types import DXFTag
+    from ezdxf.recover import byte_tag_compiler
+
+    try:
+        tags = list(byte_tag_compiler([DXFTag(1, s.encode("utf8"))], encoding="utf8"))
+    except Exception as e:  # noqa
+        return "err " + exc_name(e)
+    if len(tags) != 1 or tags[0].code != 1:
+        return f"other {tags!r}"
+    return cps(tags[0].value)
+
+
+def mif_strings(ctx):
+    d = gen_data()
+    rng = ctx.rng("mif")
+    page_of = {nm: chr(k) for k, nm in d["mif_pages"] if nm}
+    escapes = []
+    for enc, full in d["dbcs_full"].items():
+        pg = page_of.get(enc)
+        if pg is None:
+            continue
+        keys = [e // 65536 for e in full["dec"] if e // 65536 > 255]
+        ks = rng.sample(keys, ctx.n(60, 600)) + [keys[0], keys[-1]] + [k for k in keys if k & 255 == 0x5C][:3]
+        undefined = []
+        defined = set(keys)
+        while len(undefined) < ctx.n(20, 200):
+            k = rng.randrange(0x8100, 0x10000)
+            if k not in defined:
+                undefined.append(k)
+        for k in ks + undefined + [0x4142, 0x0041, 0x4100, 0x7E7E, 0x8041, 0xFFFF, 0x0000, 0x0A0D]:
+            escapes.append("\\M+%s%04X" % (pg, k))
+    for e in escapes:
+        yield "esc", e
+    for e in escapes[::7]:
+        yield "esc-ctx", "a" + e + "b"
+        yield "esc-ctx", e + e.lower()
+        yield "esc-ctx", e.lower() + e
+        yield "esc-ctx", e[:6] + e
+        yield "esc-ctx", e[:4] + e
+        yield "esc-ctx", e + "\\U+0041"
+    for pg in "0123456789AaM":
+        for tail in ["", "4", "41", "414", "4142", "41424", "414243", "8140", "82a0", "82A0", "82A", "82A0x", "e4b8", "E4B8AD", "G140", "41 42",
+                     "٤١٤٢", "4\u0661", "8", "81", "ＡＡＡＡ", "0000", "000A", "FFFF", "D7DF"]:
+            yield "tmpl", "\\M+" + pg + tail
+            yield "tmpl", "\\M+" + pg + tail + "\\M+5D7DF"
+            yield "tmpl", "x\\M+5D7DF\\M+" + pg + tail
+    for s0 in ["", "abc", "\\M+", "\\M", "\\m+5D7DF", "\\M+5D7DF\\M+5CFDFM+5BCDC", "*\\M+5D7DF*", "\\M+5D7DF\\U+20AC", "\\U+20AC\\M+5D7DF",
+               "\\M+5D7D\\M+5D7DF", "\\\\M+5D7DF", "\\M+5d7df"]:
+        yield "tmpl", s0
+    atoms = ["\\M+", "\\M+1", "\\M+5", "\\M+4", "\\M+2A5", "\\", "M", "+", "x", " ", "\\U+0041", "\\M+182A0", "\\M+5D7DF", "\\M+3B0A1"] + list("0123456789ABCDEFabcdef")
+    for _ in range(ctx.n(1500, 20000)):
+        yield "rnd", "".join(rng.choice(atoms) for _ in range(rng.randint(0, rng.choice([2, 4, 8, 14]))))
 
 
 def impl_rt(enc: str, s: str) -> str:
@@ -555,6 +771,130 @@ def name_strings(ctx):
         yield "tocp", "".join(rng.choice("cpgbk0123456789") for _ in range(rng.randint(0, 7)))
 
 
+# ---------------------------------------------------------------------- encoding detection at the three reader sites
+def ascii_header(ver: str, cp: str) -> str:
+    return (f"  0\nSECTION\n  2\nHEADER\n  9\n$ACADVER\n  1\n{ver}\n  9\n$DWGCODEPAGE\n  3\n{cp}\n  9\n$HANDSEED\n  5\nFF\n"
+            "  0\nENDSEC\n  0\nEOF\n")
+
+
+def norm_enc(e: str) -> str:
+    return "utf8" if e == "utf-8" else e
+
+
+def site_ascii(ver: str, cp: str) -> str:
+    import io
+    from ezdxf.filemanagement import dxf_stream_info
+
+    return norm_enc(dxf_stream_info(io.StringIO(ascii_header(ver, cp))).encoding)
+
+
+def site_recover(ver: str, cp: str) -> str:
+    import io
+    from ezdxf.recover import bytes_loader, detect_encoding
+
+    return norm_enc(detect_encoding(bytes_loader(io.BytesIO(ascii_header(ver, cp).encode("utf8")))))
+
+
+def site_fileindex(ctx, ver: str, cp: str) -> str:
+    """lldxf.fileindex.load (iterdxf.opendxf): needs a file"""
+    from ezdxf.lldxf import fileindex
+
+    path = ctx.scratch / f"fi_{os.getpid()}.dxf"
+    path.write_bytes(ascii_header(ver, cp).encode("utf8"))
+    try:
+        return norm_enc(fileindex.load(str(path)).encoding)
+    except Exception as e:  # noqa
+        return "err " + exc_name(e)
+
+
+def site_zip(ctx, ver: str, cp: str) -> str:
+    """tools.zipmanager.ZipReader.get_dxf_info (ezdxf.readzip)"""
+    import zipfile
+    from ezdxf.tools.zipmanager import ctxZipReader
+
+    zpath = str(ctx.scratch / f"z_{os.getpid()}.zip")
+    with zipfile.ZipFile(zpath, "w") as zf:
+        zf.writestr("h.dxf", ascii_header(ver, cp).encode("utf8"))
+    try:
+        with ctxZipReader(zpath) as z:
+            return norm_enc(z.encoding)
+    except Exception as e:  # noqa
+        return "err " + exc_name(e)
+    finally:
+        os.unlink(zpath)
+
+
+def site_single_pass(ver: str, cp: str) -> str:
+    """iterdxf.single_pass_modelspace: the encoding is a local; observed through the text of a TEXT entity"""
+    import io
+    from ezdxf.addons import iterdxf
+
+    head = ascii_header(ver, cp).encode("utf8").replace(b"  0\nEOF\n", b"")
+    data = head + b"  0\nSECTION\n  2\nENTITIES\n  0\nTEXT\n  5\nA1\n  8\n0\n  1\n" + BIN_PROBE + b"\n  0\nENDSEC\n  0\nEOF\n"
+    try:
+        ents = list(iterdxf.single_pass_modelspace(io.BytesIO(data), types=["TEXT"]))
+        val = ents[0].dxf.text
+    except Exception as e:  # noqa
+        return "err " + exc_name(e)
+    hits = [c for c in ["utf8"] + gen_data()["codecs"] if BIN_PROBE.decode(c, "surrogateescape") == val]
+    return hits[0] if len(hits) == 1 else f"ambiguous {hits}"
+
+
+BIN_PROBE = bytes([0x80, 0x8C, 0xA4, 0xAA, 0xC0, 0xD0, 0xE0, 0xF0, 0xFE, 0x41, 0x95, 0x5C, 0xA5, 0x5C, 0x81, 0x5C])
+
+
+def bin_file(ver: str, cp: bytes):
+    """minimal Binary DXF; returns (data, offset of the first byte of the $DWGCODEPAGE value)"""
+    import struct
+
+    r12 = ver <= "AC1009"
+    out = bytearray(b"AutoCAD Binary DXF\r\n\x1a\x00")
+
+    def tag(code, val: bytes):
+        out.extend(bytes([code]) if r12 else struct.pack("<H", code))
+        pos = len(out)
+        out.extend(val + b"\x00")
+        return pos
+
+    tag(0, b"SECTION"), tag(2, b"HEADER"), tag(9, b"$ACADVER"), tag(1, ver.encode())
+    tag(9, b"$DWGCODEPAGE")
+    pos = tag(3, cp)
+    tag(0, b"ENDSEC"), tag(1, BIN_PROBE), tag(0, b"EOF")
+    return bytes(out), pos
+
+
+def site_binary(ver: str, cp: bytes) -> str:
+    """the encoding `scan_params` chose, observed through the decoding of a probe string"""
+    from ezdxf.lldxf.tagger import binary_tags_loader
+
+    data, _ = bin_file(ver, cp)
+    try:
+        val = [t.value for t in binary_tags_loader(data) if t.code == 1][-1]
+    except Exception as e:  # noqa
+        return "err " + exc_name(e)
+    hits = [c for c in ["utf8"] + gen_data()["codecs"] if BIN_PROBE.decode(c, "surrogateescape") == val]
+    return hits[0] if len(hits) == 1 else f"ambiguous {hits}"
+
+
+def detection_cases(ctx):
+    d = gen_data()
+    rng = ctx.rng("detect")
+    keys = [k for k, _ in d["cp2enc"]]
+    versions = [v for v, _ in d["versions"]] + ["AC1020", "AC1022", "AC1033", "ac1021", "AC102", "AC10211", "", "AD1021", "AC1O21"]
+    spell = []
+    for k in keys:
+        for pre in ["ANSI_", "ansi_", "Ansi_", "DOS", "dos", "", "ANSI-", "CP", "WINDOWS-", "ANSI_0", "ANSI__", "ANSI_" + keys[0]]:
+            spell.append(pre + k)
+        spell += ["ANSI_" + k + " ", "ANSI_" + k + "\t", " ANSI_" + k, "ANSI_" + k[:-1], "ANSI_" + k + "0", "ANSI_" + k[1:]]
+    spell += ["", "ANSI_", "ANSI_1200", "ANSI_1361", "UTF-8", "utf8", "1252", "ANSI_１２５２", "ANSI_٩٣٢", "x", "ANSI", "A874", "ANS_9", "87", "4"]
+    for _ in range(ctx.n(60, 600)):
+        spell.append("".join(rng.choice("0123456789ANSI_ dos") for _ in range(rng.randint(0, 10))) + rng.choice(keys + ["", "9"]))
+    spell = list(dict.fromkeys(spell))
+    for ver in versions:
+        for cp in (spell if not ctx.quick else spell[:: 1 + (versions.index(ver) % 3)]):
+            yield ver, cp
+
+
 def correspond(ctx):
     from ezdxf.tools import codepage
 
@@ -586,14 +926,23 @@ def correspond(ctx):
 
     # ---- X2 encode
     cases = []
+    nx = 0
     for enc in ["ascii", "utf8"] + d["codecs"]:
         ext = enc in d["dbcs"]
         for kind, s in encode_strings(ctx, enc):
             ctx.hist("X2 encode", f"{'dbcs' if ext else enc if enc in ('ascii', 'utf8') else 'sbcs'}/{kind}")
-            req = ext_request(enc, s, d["grouped"][enc]) if ext else f"enc|src|{enc}|{cps(s)}|"
+            # double-byte pages: the model's own regenerated tables (complete encoder); every 7th case additionally with the
+            # per-character encodings supplied by the codec (`ext`), a few short ones through the model's list look-ups
+            req = f"enc|src|{enc}|{cps(s)}|"
             out = impl_enc(enc, s)
             nontriv = out.startswith("err") or "92" in out.split()
             cases.append((req, out, nontriv))
+            if ext:
+                nx += 1
+                if nx % 7 == 0:
+                    cases.append((ext_request(enc, s, d["grouped"][enc]), out, nontriv))
+                if nx % 97 == 0 and len(s) <= 3:
+                    cases.append((f"slowenc|{enc}|{cps(s)}", out, nontriv))
     ctx.correspond("X2 encode", "C09", cases)
 
     # ---- X3 decode
@@ -610,6 +959,38 @@ def correspond(ctx):
             b = bytes(rng.randrange(256) for _ in range(rng.randint(1, 12)))
             ctx.hist("X3 decode", "sbcs")
             cases.append((f"dec|{enc}|{nat_list(b)}", impl_dec(enc, b), any(x >= 0x80 for x in b)))
+    for enc, full in d["dbcs_full"].items():
+        rng = ctx.rng("dbcsdec/" + enc)
+        leads = [b for a, z in full["leads"] for b in range(a, z + 1)]
+        # every 2-byte sequence in context: <b0 t A> for all t, one request per first byte (quick: every lead byte and
+        # every 5th other byte)
+        for b0 in range(256):
+            if ctx.quick and b0 not in leads and b0 % 5:
+                continue
+            b = bytes(x for t in range(256) for x in (b0, t, 0x41))
+            ctx.hist("X3 decode", "dbcs/pairs")
+            cases.append((f"dec|{enc}|{nat_list(b)}", impl_dec(enc, b), b0 >= 0x80))
+        good = [e // 65536 for e in full["good"] if e // 65536 > 255]
+        for i in range(ctx.n(400, 6000)):
+            parts = []
+            for _ in range(rng.randint(1, 6)):
+                k = rng.random()
+                if k < 0.4:
+                    key = rng.choice(good)
+                    parts.append(bytes([key >> 8, key & 255]))
+                elif k < 0.55:
+                    parts.append(bytes([rng.choice(leads)]))  # lead byte without its trail byte
+                elif k < 0.7:
+                    parts.append(bytes([rng.choice(leads), rng.choice([0x20, 0x30, 0x3F, 0x7F, 0x80, 0xFF, 0x0A, 0x5C])]))
+                elif k < 0.85:
+                    parts.append(bytes([rng.randrange(0x80, 0x100)]))
+                else:
+                    parts.append(bytes([rng.choice([0x41, 0x5C, 0x55, 0x2B, 0x30])]))
+            b = b"".join(parts)
+            ctx.hist("X3 decode", "dbcs/rnd")
+            cases.append((f"dec|{enc}|{nat_list(b)}", impl_dec(enc, b), True))
+            if i % 40 == 0 and len(b) <= 6:
+                cases.append((f"slowdec|{enc}|{nat_list(b)}", impl_dec(enc, b), True))
     ctx.correspond("X3 decode", "C09", cases)
 
     # ---- X4 unescape side
@@ -645,15 +1026,125 @@ def correspond(ctx):
             cases.append((f"tocp|{cps(s)}", cps(out), out != "ANSI_1252"))
     ctx.correspond("X5 names", "C09", cases)
 
+    # ---- X9 the file objects the writers use: io.TextIOWrapper(errors="dxfreplace") (Drawing.saveas, ASCII) with one write()
+    # per piece, and BinaryTagWriter's `str(value).encode(encoding, errors="dxfreplace")`
+    import io
+
+    cases = []
+    for enc in ["ascii", "utf8"] + d["codecs"]:
+        rng = ctx.rng("textio/" + enc)
+        good, bad = codec_pools(enc)
+        for _ in range(ctx.n(60, 600)):
+            pieces = []
+            for _ in range(rng.randint(1, 5)):
+                w = rng.choice(["AGB", "AGLB", "BBE", "B", "GB", "AGLBES"])
+                pieces.append("".join(category_char(rng, rng.choice(w), good, bad) for _ in range(rng.randint(0, 6))).replace("\r", "").replace("\n", ""))
+            raw = io.BytesIO()
+            try:
+                fp = io.TextIOWrapper(raw, encoding=enc, errors="dxfreplace", newline="")
+                for pc in pieces:
+                    fp.write(pc)
+                fp.flush()
+                out = "ok " + nat_list(raw.getvalue())
+            except Exception as e:  # noqa
+                out = "err " + exc_name(e)
+            ctx.hist("X9 text io", "dbcs" if enc in d["dbcs_full"] else "sbcs" if enc in d["sbcs"] else enc)
+            cases.append((f"encs|src|{enc}|{';'.join(cps(pc) for pc in pieces)}", out, "92" in out.split() or out.startswith("err")))
+    # the byte level line end conversions of encode_base64 / decode_base64 / ZipReader.readline (source expressions pinned by
+    # regenerate) against bytes.replace
+    rng = ctx.rng("crlf")
+    for _ in range(ctx.n(300, 3000)):
+        b = bytes(rng.choice([10, 13, 13, 10, 65, 0x95, 0x5C, 0]) for _ in range(rng.randint(0, 12)))
+        ctx.hist("X9 text io", "line-ends")
+        cases.append((f"lf2crlf|{nat_list(b)}", nat_list(b.replace(b"\n", b"\r\n")), True))
+        cases.append((f"crlf2lf|{nat_list(b)}", nat_list(b.replace(b"\r\n", b"\n")), True))
+    ctx.correspond("X9 text io", "C09", cases)
+
+    # ---- X8 MIF: decode_mif_to_unicode, re.split(MIF_ENCODED), the complete string branch of the recover loader
+    cases = []
+    seen = set()
+    nm = 0
+    for kind, t in mif_strings(ctx):
+        if t in seen:
+            continue
+        seen.add(t)
+        ctx.hist("X8 mif", kind)
+        c = cps(t)
+        out = impl_unmif(t)
+        nt = "\\M+" in t
+        cases.append((f"unmif|{c}", out, nt))
+        cases.append((f"mifsplit|{c}", impl_mifsplit(t), nt))
+        cases.append((f"recovertext|{c}", impl_recovertext(t), nt))
+        nm += 1
+        if nm % 50 == 0 and len(t) <= 16:
+            cases.append((f"slowunmif|{c}", out, nt))
+    for kind, t in undxf_strings(ctx):
+        if kind != "exh" and "\n" not in t and "\r" not in t and "\x00" not in t and t not in seen:
+            seen.add(t)
+            ctx.hist("X8 mif", "undxf-" + kind)
+            cases.append((f"recovertext|{cps(t)}", impl_recovertext(t), "\\U+" in t or "\\M+" in t))
+    # which tags the recover loader post-processes: every string typed group code (as the real TYPE_TABLE says) x escape kinds
+    from ezdxf.lldxf.types import BINARY_DATA, DXFTag, TYPE_TABLE
+    from ezdxf.recover import byte_tag_compiler
+
+    for code in range(0, 1072):
+        if TYPE_TABLE.get(code, str) is not str or code in BINARY_DATA:  # 310..319, 1004: hex strings of binary chunks
+            continue
+        for t in ["X\\U+20AC", "\\M+5D7DF", "PLAIN"]:
+            try:
+                tags = list(byte_tag_compiler([DXFTag(code, t.encode("utf8"))], encoding="utf8"))
+                out = cps(tags[0].value) if len(tags) == 1 and tags[0].code == code else f"other {tags!r}"
+            except Exception as e:  # noqa
+                out = "err " + exc_name(e)
+            ctx.hist("X8 mif", "group-code")
+            cases.append((f"recovercode|{code}|{cps(t)}", out, t != "PLAIN"))
+    ctx.correspond("X8 mif", "C09", cases)
+
+    # ---- X7 encoding detection: dxf_stream_info (strict ASCII reader), recover.detect_encoding, Binary DXF scan_params
+    cases = []
+    nsite = 0
+    for ver, cp in detection_cases(ctx):
+        nt = any(cp.endswith(k) for k, _ in d["cp2enc"])
+        ctx.hist("X7 detection", "ascii")
+        cases.append((f"detect|{cps(ver)}|{cps(cp)}", cps(site_ascii(ver, cp)), nt))
+        ctx.hist("X7 detection", "recover")
+        cases.append((f"detectrec|{cps(ver)}|{cps(cp)}", cps(site_recover(ver, cp)), nt))
+        nsite += 1
+        if nsite % 3 == 0 and "\n" not in cp and "\r" not in cp:
+            ctx.hist("X7 detection", "fileindex")
+            cases.append((f"detect|{cps(ver)}|{cps(cp)}", cps(site_fileindex(ctx, ver, cp)), nt))
+            ctx.hist("X7 detection", "readzip")
+            cases.append((f"detect|{cps(ver)}|{cps(cp)}", cps(site_zip(ctx, ver, cp)), nt))
+            ctx.hist("X7 detection", "iterdxf.single_pass")
+            cases.append((f"detect|{cps(ver)}|{cps(cp)}", cps(site_single_pass(ver, cp)), nt))
+        if len(ver) == 6 and cp.isascii():
+            data, pos = bin_file(ver, cp.encode())
+            ctx.hist("X7 detection", "binary")
+            start = data.index(b"$DWGCODEPAGE") + 14  # scan_params; = pos for 1-byte group codes, pos - 1 otherwise
+            cases.append((f"detectbin|{cps(ver)}|{nat_list(data[start:])}", cps(site_binary(ver, cp.encode())), nt))
+    # the writer's side of the same rule: Drawing.output_encoding for every version ezdxf can create x every code page
+    import ezdxf
+    from ezdxf.lldxf import const
+
+    for ver, _u in d["versions"]:
+        if ver not in const.versions_supported_by_new:
+            continue
+        doc = ezdxf.new(ver)
+        for enc in d["codecs"]:
+            doc.encoding = enc
+            ctx.hist("X7 detection", "output_encoding")
+            cases.append((f"detect|{cps(ver)}|{cps(codepage.tocodepage(enc))}", cps(norm_enc(doc.output_encoding)), True))
+    ctx.correspond("X7 detection", "C09", cases)
+
     # ---- X6 pipeline (model codecs only)
     cases = []
-    for enc in ["ascii", "utf8"] + list(d["sbcs"]):
+    for enc in ["ascii", "utf8"] + list(d["sbcs"]) + list(d["dbcs_full"]):
         rng = ctx.rng("rt/" + enc)
         good, bad = codec_pools(enc)
         for _ in range(ctx.n(150, 1500)):
             w = rng.choice(["AGB", "AGLB", "AGLBE", "AAAB", "GB"])
             s = "".join(category_char(rng, rng.choice(w), good, bad) for _ in range(rng.randint(1, 16)))
-            ctx.hist("X6 pipeline", "sbcs" if enc in d["sbcs"] else enc)
+            ctx.hist("X6 pipeline", "sbcs" if enc in d["sbcs"] else "dbcs" if enc in d["dbcs_full"] else enc)
             cases.append((f"rt|src|{enc}|{cps(s)}", impl_rt(enc, s), True))
     ctx.correspond("X6 pipeline", "C09", cases)
 
@@ -708,6 +1199,31 @@ def special_trail_chars(enc: str):
     for tb, xs in sorted(out.items()):
         res += xs[:6] if chr(tb) in "\\^%{}|~" else xs[:1]
     return res
+
+
+def trail_escape_strings(enc: str):
+    """double-byte pages: a character whose TRAIL byte is an ASCII character with a meaning in DXF text, directly followed by
+    the text that would complete an escape at the byte level: `<95 5C>U+0041` is the byte string `..\\U+0041` in the file but
+    the text `表U+0041` (no backslash in it: inside the property).  Also `^`+J (caret notation), `%`+%d, `\\`+P, `{`."""
+    d = gen_data()
+    if enc not in d["dbcs"]:
+        return []
+    by_trail = {}
+    for x, b in d["tables"][enc].items():
+        if len(b) == 2 and is_plain_char(x) and x not in d["dbcs"][enc]["lossy"]:
+            by_trail.setdefault(b[1], []).append(x)
+    out = []
+    tails = {0x5C: ["U+0041", "U+20AC", "M+182A0", "M+5D7DF", "P", "U+", "\\U+", "", "~", "fArial|b0;"],
+             0x5E: ["J", "I", "M", " "], 0x25: ["%d", "%c", "%%"], 0x7B: ["}", "x"], 0x7C: ["x"], 0x40: ["x"]}
+    for tb, tl in tails.items():
+        xs = by_trail.get(tb, [])
+        for x in xs[:3] + xs[-2:]:
+            for t in tl:
+                for frame in ("{c}{t}", "a{c}{t}z", "{c}{c}{t}", "Ω{c}{t}Ω"):
+                    s = frame.format(c=chr(x), t=t)
+                    if not has_literal_escape(s) and s == s.strip() and not s.endswith("^"):
+                        out.append(s)
+    return list(dict.fromkeys(out))
 
 
 def sweep_codepoints(ctx, enc: str):
@@ -776,10 +1292,29 @@ def random_strings(ctx, enc: str, count: int):
             elif k == "s":
                 cs.append(chr(rng.choice(special)))
         s = "".join(cs)
-        if has_literal_escape(s) or s != s.strip() or not s or s in out or s.endswith("^"):
+        if has_literal_escape(s) or not s or s in out or s.endswith("^"):
             continue
         out.append(s)
+    # white space at the ends of a value (ASCII blank, NBSP, ideographic space U+3000, en/em spaces, ZWSP, BOM): no loader strips it
+    ws = [" ", "\u00a0", "\u3000", "\u2002", "\u2003", "\u2009", "\u200b", "\ufeff", "\u1680", "\u205f"]
+    core = chr(rng.choice(good)) + "x" + chr(rng.choice(bad or good))
+    for w in ws:
+        for s in (w + core, core + w, w + core + w, core + w + w, w):
+            if s not in out:
+                out.append(s)
+    # long values: MTEXT is written in chunks of 250 characters (group 3 ... 1), every escape has 7 bytes
+    for n, kinds in ((251, "b"), (600, "agb"), (1300, "gbs")):
+        cs = []
+        while len(cs) < n:
+            k = rng.choice(kinds)
+            cs.append(rng.choice("abcXYZ019 ") if k == "a" else chr(rng.choice(good if k == "g" else special if k == "s" else (bad or good))))
+        s = "L" + "".join(cs) + "e"
+        if not has_literal_escape(s):
+            out.insert(len(out) // 2, s)
     return out
+
+
+NAMED = 10  # strings per document that are also used as block / style names and ATTRIB values
 
 
 class Place:
@@ -814,6 +1349,18 @@ def write_doc(pl: Place, path: str):
         ln = layer_name(i, s)
         if ln is not None:
             doc.layers.add(ln)
+    # more text-carrying attributes for the first strings of the document: block name + INSERT reference, ATTRIB text and
+    # tag, text style name, DIMENSION text override
+    for i, s in enumerate(pl.strings[:NAMED]):
+        bn = layer_name(i, s)
+        if bn is None:
+            continue
+        bn = "B" + bn[1:]
+        blk = doc.blocks.new(bn)
+        blk.add_point((0, 0))
+        ins = msp.add_blockref(bn, (i, 0))
+        ins.add_attrib("T" + bn[1:], s, (0, 0))
+        doc.styles.add("S" + bn[1:], font="txt.shx")
     if pl.strings:
         doc.header["$MENU"] = pl.strings[0]
         doc.header["$DIMPOST"] = pl.strings[-1]
@@ -831,15 +1378,47 @@ def read_doc(pl: Place, path: str):
         doc, _aud = recover.readfile(path)
     msp = doc.modelspace()
     texts = list(msp.query("TEXT"))
+    extra = {}
+    if pl.reader == "strict" and pl.fmt == "asc":
+        # the other readers of ASCII DXF (none of them decodes \\U+XXXX itself): iterdxf.modelspace (dxf_file_info),
+        # iterdxf.single_pass_modelspace (own header scan), iterdxf.opendxf (lldxf.fileindex)
+        from ezdxf.addons import iterdxf
+
+        extra["TEXT/iterdxf.modelspace"] = [e.dxf.text for e in iterdxf.modelspace(path, types=["TEXT"])]
+        with open(path, "rb") as fh:
+            extra["TEXT/iterdxf.single_pass"] = [e.dxf.text for e in iterdxf.single_pass_modelspace(fh, types=["TEXT"])]
+        it = iterdxf.opendxf(path)
+        try:
+            extra["TEXT/iterdxf.opendxf"] = [e.dxf.text for e in it.modelspace(types=["TEXT"])]
+        finally:
+            it.close()
+        # ezdxf.readzip: lines are split at the byte level and decoded one by one (tools/zipmanager.py)
+        import zipfile
+
+        zpath = path + ".zip"
+        with zipfile.ZipFile(zpath, "w") as zf:
+            zf.write(path, "doc.dxf")
+        try:
+            extra["TEXT/readzip"] = [e.dxf.text for e in ezdxf.readzip(zpath).modelspace().query("TEXT")]
+        finally:
+            os.unlink(zpath)
+        # Drawing.encode_base64 (whole file encoded at once, LF -> CRLF at the byte level) -> ezdxf.decode_base64
+        # (CRLF -> LF at the byte level, then decoded as a whole)
+        extra["TEXT/base64"] = [e.dxf.text for e in ezdxf.decode_base64(doc.encode_base64()).modelspace().query("TEXT")]
     out = {
         "TEXT": [e.dxf.text for e in texts],
         "XDATA": [e.get_xdata("VERIFC09")[0].value for e in texts],
         "MTEXT": [e.text for e in msp.query("MTEXT")],
         "LAYER": [l.dxf.name for l in doc.layers],
+        "BLOCK": [b.name for b in doc.blocks if b.name.startswith("B")],
+        "INSERT": [e.dxf.name for e in msp.query("INSERT")],
+        "ATTRIB": [(a.dxf.tag, a.dxf.text) for e in msp.query("INSERT") for a in e.attribs],
+        "STYLE": [st.dxf.name for st in doc.styles if st.dxf.name.startswith("S")],
         "HEADER": [doc.header["$MENU"], doc.header["$DIMPOST"]],
         "encoding": doc.encoding,
         "output_encoding": doc.output_encoding,
     }
+    out.update(extra)
     return out
 
 
@@ -957,7 +1536,7 @@ def check_place(ctx, tally: Tally, pl: Place, depth=0):
                        {**rep, "strings": [s], "where": where}, cap_class=f"roundtrip/{pl.ident()}/{where}")
 
     n = len(pl.strings)
-    for where in ("TEXT", "XDATA") + (("MTEXT",) if pl.version != "R12" else ()):
+    for where in ("TEXT", "XDATA") + (("MTEXT",) if pl.version != "R12" else ()) + tuple(k for k in got if k.startswith("TEXT/")):
         vals = got[where]
         if len(vals) != n:
             tally.fail(f"file-layer/count/{pl.ident()}/{where}", f"{where}: wrote {n} read {len(vals)}", {**rep, "strings": pl.strings})
@@ -966,6 +1545,34 @@ def check_place(ctx, tally: Tally, pl: Place, depth=0):
             compare(where, s, raw)
     compare("HEADER", pl.strings[0], got["HEADER"][0])
     compare("HEADER", pl.strings[-1], got["HEADER"][1])
+    # named objects: the raw names must be consistent (INSERT -> BLOCK) and decode to what was stored
+    want_named = [(i, s) for i, s in enumerate(pl.strings[:NAMED]) if layer_name(i, s) is not None]
+    for where, prefix in (("BLOCK", "B"), ("INSERT", "B"), ("STYLE", "S")):
+        found = {}
+        for raw in got[where]:
+            m = re.match(prefix + r"(\d+)_", raw)
+            if m:
+                found[int(m.group(1))] = raw
+        for i, s in want_named:
+            if i not in found:
+                tally.fail(f"file-layer/{where.lower()}-missing/{pl.ident()}/{s!r}", f"{where} {prefix}{i}_… missing after load",
+                           {**rep, "strings": [s], "where": where})
+                continue
+            compare(where, prefix + layer_name(i, s)[1:], found[i])
+    if set(got["INSERT"]) - set(got["BLOCK"]):
+        tally.fail(f"file-layer/insert-without-block/{pl.ident()}", f"INSERT names without block: {sorted(set(got['INSERT']) - set(got['BLOCK']))[:3]!r}",
+                   {**rep, "strings": pl.strings[:NAMED], "where": "INSERT"})
+    atts = {}
+    for tag, text in got["ATTRIB"]:
+        m = re.match(r"T(\d+)_", tag)
+        if m:
+            atts[int(m.group(1))] = (tag, text)
+    for i, s in want_named:
+        if i not in atts:
+            tally.fail(f"file-layer/attrib-missing/{pl.ident()}/{s!r}", f"ATTRIB T{i}_… missing after load", {**rep, "strings": [s], "where": "ATTRIB"})
+            continue
+        compare("ATTRIB.tag", "T" + layer_name(i, s)[1:], atts[i][0])
+        compare("ATTRIB.text", s, atts[i][1])
     names = {}
     for raw in got["LAYER"]:
         m = re.match(r"L(\d+)_", raw)
@@ -986,6 +1593,10 @@ def oracle_places(ctx):
     per_doc = ctx.n(48, 256)
     for ei, enc in enumerate(d["codecs"]):
         strings = pack(sweep_codepoints(ctx, enc)) + random_strings(ctx, enc, ctx.n(160, 1500))
+        tes = trail_escape_strings(enc)
+        if ctx.quick and len(tes) > 90:
+            tes = ctx.rng("tes/" + enc).sample(tes, 90)
+        strings = tes + strings
         combos = [(v, m) for v in LEGACY_VERSIONS for m in MODES]
         if ctx.quick:
             # every (version, mode) combination sees an interleaved 1/9 of the strings
@@ -1024,8 +1635,79 @@ def check_function(tally: Tally, enc: str, s: str):
     if k:
         tally.fail(k, what, {"op": "function", "enc": enc, "strings": [s]}, cap_class=k.rsplit("/", 1)[0])
     else:
-        tally.fail(f"roundtrip/function/{enc}/U+{ord(s[1]):04X}", what, {"op": "function", "enc": enc, "strings": [s]},
+        tally.fail(f"roundtrip/function/{enc}/" + ("U+%04X" % ord(s[1]) if len(s) == 3 else repr(s)), what, {"op": "function", "enc": enc, "strings": [s]},
                    cap_class=f"roundtrip/function/{enc}")
+
+
+SPELLING_PREFIXES = ["ansi_", "DOS", "dos", "Ansi_"]
+
+
+def check_spelling(ctx, tally, enc: str, version: str, fmt: str, spellings, texts):
+    """save `texts` under code page `enc`, re-spell $DWGCODEPAGE in the file, read it with every reader of the format"""
+    import ezdxf
+    from ezdxf import recover
+    from ezdxf.lldxf.encoding import decode_dxf_unicode
+
+    d = gen_data()
+    key = dict(d["enc2cp"]).get(enc)
+    if key is None:
+        return
+    doc = ezdxf.new(version)
+    doc.encoding = enc
+    msp = doc.modelspace()
+    for t in texts:
+        msp.add_text(t)
+    path = str(ctx.scratch / f"sp_{os.getpid()}.dxf")
+    doc.saveas(path, fmt=fmt)
+    raw = open(path, "rb").read()
+    std = b"ANSI_" + key.encode()
+    try:
+        for sp in spellings:
+            spelling = sp.encode()
+            if fmt == "bin":
+                patched = raw.replace(std + b"\x00", spelling + b"\x00", 1)
+            else:
+                patched = raw.replace(b"\n" + std + b"\n", b"\n" + spelling + b"\n", 1)
+            if patched == raw:
+                tally.fail(f"file-layer/codepage-not-written/{enc}/{version}/{fmt}", f"$DWGCODEPAGE {std!r} not found in the file",
+                           {"op": "codepage", "enc": enc})
+                continue
+            with open(path, "wb") as fh:
+                fh.write(patched)
+            readers = [("strict", lambda: ezdxf.readfile(path))]
+            if fmt == "asc":
+                readers.append(("recover", lambda: recover.readfile(path)[0]))
+            for rname, rd in readers:
+                ctx.count("O4 code page spellings", (enc, version, fmt, sp, rname), True)
+                try:
+                    back = rd()
+                    got = [e.dxf.text if rname == "recover" else decode_dxf_unicode(e.dxf.text) for e in back.modelspace().query("TEXT")]
+                except Exception as e:  # noqa
+                    got = f"{type(e).__name__}: {e}"
+                if got != texts:
+                    tally.fail(f"file-layer/codepage-spelling/{enc}/{version}/{fmt}/{rname}/{sp}",
+                               f"$DWGCODEPAGE={sp!r} ({version}, {fmt}, {rname} reader): {texts!r} read back as {got!r}",
+                               {"op": "spelling", "enc": enc, "version": version, "fmt": fmt, "reader": rname,
+                                "spelling": sp, "strings": texts})
+    finally:
+        try:
+            os.unlink(path)
+        except OSError:
+            pass
+
+
+def oracle_spellings(ctx, tally):
+    d = gen_data()
+    enc2cp = dict(d["enc2cp"])
+    for enc in d["codecs"]:
+        key = enc2cp.get(enc)
+        if key is None:
+            continue
+        good = [x for x in d["tables"][enc] if is_plain_char(x) and x >= 0x80 and x not in lossy_chars(enc)]
+        rng = ctx.rng("spell/" + enc)
+        texts = ["".join(chr(rng.choice(good)) for _ in range(6)) + "Ω", "x" + chr(good[0]) + chr(good[-1])]
+        for version, fmt in (("R2000", "asc"), ("R12", "asc"), ("R2000", "bin"), ("R12", "bin")):
+            check_spelling(ctx, tally, enc, version, fmt, [pre + key for pre in SPELLING_PREFIXES], texts)
 
 
 def oracle(ctx):
@@ -1043,6 +1725,11 @@ def oracle(ctx):
             if is_plain_char(x):
                 ctx.count("O2 function level", (enc, x), x >= 0x80)
                 check_function(tally, enc, "a" + chr(x) + "b")
+        for t in trail_escape_strings(enc) if enc != "utf8" else []:
+            ctx.count("O2 function level", (enc, t), True)
+            check_function(tally, enc, t)
+    # O4: the same file with $DWGCODEPAGE in another spelling (lower case, DOS prefix, bare number) is read the same way
+    oracle_spellings(ctx, tally)
     # O1: real files
     ndocs = 0
     for pl in oracle_places(ctx):
@@ -1084,6 +1771,8 @@ def replay(ctx, rep):
         elif r["op"] == "function":
             for s in r["strings"]:
                 check_function(tally, r["enc"], s)
+        elif r["op"] == "spelling":
+            check_spelling(tally.ctx, tally, r["enc"], r["version"], r["fmt"], [r["spelling"]], r["strings"])
         elif r["op"] == "codepage":
             import ezdxf
             from ezdxf.tools import codepage
